@@ -99,7 +99,11 @@ Spec == Init /\ [][Next]_vars /\ WF_vars(Next)
 GenSpec == Init /\ [][FALSE]_vars
 
 ------------------------------------------------------------------------------
-Refines == [][ \/ C!Choose(ret'.ok, ret'.pick, ret'.listed)
+\* the exact contract implies the statement-level one (so the model refines both)
+ExactImpliesStatement == /\ C!MayX(inp) \subseteq C!May(inp)
+                         /\ C!Must(inp) \subseteq C!MustX(inp)
+
+Refines == [][ \/ C!ChooseExact(ret'.ok, ret'.pick, ret'.listed)
                \/ UNCHANGED ncvars ]_vars
 
 TypeOK == /\ pc \in {"loop", "done"}
@@ -107,10 +111,10 @@ TypeOK == /\ pc \in {"loop", "done"}
           /\ ok <=> best # 0
 
 \* the loop invariant that makes the result optimal whatever the map order
-LoopInv == ok => /\ best \in C!May(inp)
+LoopInv == ok => /\ best \in C!MayX(inp)
                  /\ \A k \in (DOMAIN inp.types) \ todo :
-                        k \in C!May(inp) => inp.types[k].price >= inp.types[best].price
-NoneMissed == (~ok) => \A k \in (DOMAIN inp.types) \ todo : k \notin C!May(inp)
+                        k \in C!MayX(inp) => inp.types[k].price >= inp.types[best].price
+NoneMissed == (~ok) => \A k \in (DOMAIN inp.types) \ todo : k \notin C!MayX(inp)
 
 Terminates == <>(pc = "done")
 
@@ -138,7 +142,7 @@ TImgNs     == {0, 121, 122, 163, 164}
 Emit == Serialize(<<[id |-> TLCGet("distinct"), types |-> inp.types, ram |-> inp.ram, kc |-> inp.kc,
                      reserve |-> inp.reserve, vcpus |-> inp.vcpus, tmps |-> inp.tmps,
                      imgn |-> inp.imgn, pre |-> inp.pre, scale |-> inp.scale,
-                     may |-> SetToSeq(C!May(inp)), must |-> SetToSeq(C!Must(inp))]>>,
+                     may |-> SetToSeq(C!MayX(inp)), must |-> SetToSeq(C!MustX(inp))]>>,
                   IOEnv.VERIF_OUT,
                   [format |-> "NDJSON", charset |-> "UTF-8",
                    openOptions |-> <<"WRITE", "CREATE", "APPEND">>])
